@@ -441,10 +441,40 @@ def run_history(h, mods, tmp):
         stored = {}       # pn -> files referenced by its traj.txt
         for pn, names in obs["init"]:
             stored[pn] = names
-        for k, (acc, which, shape) in enumerate(h["steps"]):
+        # the restart file on disk must name loadable paths at every moment: check at the most
+        # exposed one, after all deletions of a call and just before restart.toml is rewritten
+        real_write_toml = st.write_toml
+        mid = {"bad": None}
+
+        def checked_write_toml():
+            try:
+                with open("restart.toml", "rb") as fh:
+                    act = tomli.load(fh)["current"]["active"]
+                for pn in act:
+                    try:
+                        load_path(os.path.join("load", str(pn)))
+                    except Exception as e:  # noqa: BLE001
+                        mid["bad"] = f"path {pn} named by the restart.toml on disk does not load while treat_output runs: {type(e).__name__} {e}"
+                        break
+            except FileNotFoundError:
+                pass
+            return real_write_toml()
+        st.write_toml = checked_write_toml
+        for k, step in enumerate(h["steps"]):
+            acc, which, shape = step[0], step[1], step[2]
+            stale_sel = step[3] if len(step) > 3 else None
             md = inflight.pop(which % len(inflight))
             md["status"] = "ACC" if acc else "REJ"
             ops_here = []
+            if stale_sel is not None:
+                # a stale file (as left by an interrupted store) appears in some existing accepted/ directory
+                dirs_now = sorted(int(x) for x in os.listdir("load") if os.path.isdir(os.path.join("load", x, "accepted")))
+                pn_s = dirs_now[stale_sel % len(dirs_now)]
+                nm = f"stale{k}.tmp"
+                with open(os.path.join("load", str(pn_s), "accepted", nm), "w") as fh:
+                    fh.write("stale\n")
+                ops_here.append(("S", pn_s, nm))
+            mid["bad"] = None
             if acc:
                 for j, ens_num in enumerate(md["picked"]):
                     nfiles, extra = shape[j % len(shape)]
@@ -479,10 +509,17 @@ def run_history(h, mods, tmp):
             obs["states"].append(state)
             # ---- property predicates on the real files
             where = {"step": k}
+            if mid["bad"]:
+                obs["fails"].append(("C14:restart-referenced-path-lost-file", mid["bad"], where))
+            if h["delete_old"] and n_ens == 2 and sum(1 for op in ops_here if op[0] == "R") == 2:
+                obs["zero_swaps_n3"] = obs.get("zero_swaps_n3", 0) + 1
             if err is not None:
                 errno_ = getattr(err, "errno", None)
                 if isinstance(err, OSError) and errno_ == 39 and h["delete_old_all"] and h["keep"]:
                     obs["fails"].append((SIG_RMDIR, f"treat_output raised {type(err).__name__}: {err} (kept side files are not in adress)", where))
+                elif isinstance(err, OSError) and errno_ == 39 and h["delete_old_all"]:
+                    obs["fails"].append(("C14:delete_old_all:rmdir-nonempty-with-stale-files",
+                                         f"treat_output raised {type(err).__name__}: {err} (a stale file lies in accepted/)", where))
                 else:
                     obs["fails"].append((f"C14:delete-block-raises:{ekind(err)}", f"treat_output raised {type(err).__name__}: {err}", where))
             live_now = list(st.live_paths()) if err is None else []
@@ -550,6 +587,8 @@ def hist_line(h, obs, variant="r"):
     for op in flat:
         if op[0] == "F":
             out.append("F")
+        elif op[0] == "S":
+            out += ["S", str(op[1]), op[2]]
         else:
             out += ["R", str(op[1]), lst(op[2]), lst(op[3])]
     return " ".join(out)
@@ -605,7 +644,8 @@ def gen_histories(ctx):
                 nsteps = rng.randint(n_ens + 2, 5 * n_ens + 6)
                 pacc = rng.choice([0.5, 0.8, 1.0])
                 hs.append({"n_ens": n_ens, "workers": workers, "seed": rng.randrange(1000), "delete_old": d, "delete_old_all": a,
-                           "keep": k, "steps": [(rng.random() < pacc, rng.randrange(8), shape()) for _ in range(nsteps)],
+                           "keep": k, "steps": [(rng.random() < pacc, rng.randrange(8), shape(),
+                                                 rng.randrange(50) if rng.random() < 0.25 else None) for _ in range(nsteps)],
                            "kind": "random"})
     return hs
 
@@ -622,7 +662,9 @@ def part_b(ctx, tmp, only=None):
         key = f"B:n={h['n_ens']},del={h['delete_old']},all={h['delete_old_all']},keep={'y' if h['keep'] else 'n'}"
         ctx.count(len(obs["states"]), branch=key)
         ctx.hit("B:histories")
-        if any(a for (a, _w, _s) in h["steps"]):
+        if obs.get("zero_swaps_n3"):
+            ctx.hit("B:accepted-zero-swap-calls,2-interfaces,delete_old", obs["zero_swaps_n3"])
+        if any(st_[0] for st_ in h["steps"]):
             ctx.distinct(("B", repr(h)))
         rep = {"part": "B", "history": h}
         sigs = set()
